@@ -240,7 +240,7 @@ def run(ctx, anchors=None):
                     continue
                 ndef += 1
                 ctx.site()
-                cj = [astq.estr(c) for c in S.conjuncts(astq.expand(f, n["rhs"]))]
+                cj = [astq.estr(c) for c in S.conjuncts(astq.inline_pure(prog.resolve, astq.expand(f, n["rhs"])))]
                 has_base = any("sigversion == SigVersion::BASE" in c for c in cj)
                 has_flag = any("SCRIPT_VERIFY_P2SH" in c and "flags" in c and not c.startswith("!") for c in cj)
                 ctx.inst(has_base and has_flag, "R03.5", "p2sh-only-for-BASE-with-flag@%s" % f.name, f.loc(n),
